@@ -50,6 +50,7 @@ def kvValue (fields k : Bytes) : Bytes :=
 
 def parseFlt (s : String) : Ev → Bool :=
   match s.splitOn ":" with
+  | ["nand", h, v] => fun e => !(isInfix (unhex h) e.msg && decide (e.ts > v.toInt?.getD 0))
   | ["fldeq", k, v] => fun e => kvValue e.fields (unhex k) == unhex v
   | ["fldne", k, v] => fun e => kvValue e.fields (unhex k) != unhex v
   | ["contains", h] => fun e => isInfix (unhex h) e.msg
